@@ -292,7 +292,20 @@ func BuildUnion(query *Query, expr *sqlparser.Union) error {
 
 // unionBranch evaluates one side of a UNION, which is a SELECT or, in a chain, another UNION.
 func unionBranch(query *Query, statement sqlparser.TableStatement, with *sqlparser.With) ([]any, error) {
-	statement.SetWith(with)
+	// the CTEs of the UNION are visible in its branches; a branch in parentheses that brings a WITH of
+	// its own keeps it
+	switch branch := statement.(type) {
+	case *sqlparser.Select:
+		if branch.With == nil {
+			branch.SetWith(with)
+		}
+	case *sqlparser.Union:
+		if branch.With == nil {
+			branch.SetWith(with)
+		}
+	default:
+		statement.SetWith(with)
+	}
 	branch, err := Prepare(query.data, statement, query.options)
 	if err != nil {
 		return nil, err
